@@ -21,7 +21,7 @@ EXHAUSTIVE = {"quick": False, "thorough": True}
 
 K = 8
 OPS = ["connect", "connect-auth", "shell", "exec_out", "streaming_shell", "root", "reboot", "list", "stat", "pull", "pull-cb", "push"]
-STALLS = ["silence", "eof", "trickle", "other-traffic", "unexpected", "partial"]
+STALLS = ["silence", "eof", "trickle", "other-traffic", "unexpected", "partial", "data-flood"]
 TS = [None, 0, 0.5, -1, 3]
 RS = [0, 0.3, 2, -1, 10]
 XS = [None, 0, 1, 5]
@@ -198,12 +198,15 @@ class Staller(object):
             return self.orig(numbytes, timeout)
         if stalled:
             self.reached = True
-            if self.kind in ("other-traffic", "unexpected"):
+            if self.kind in ("other-traffic", "unexpected", "data-flood"):
                 self.floods += 1
                 core.clock.advance(self.flood_pace)
                 st = self.target_stream()
                 if self.kind == "unexpected" and st is not None and sim.connected:
                     raw = wire.pack("SYNC", st.remote, st.local, b"")
+                elif self.kind == "data-flood" and st is not None and sim.connected:
+                    # endless output on the operation's own stream: only a whole-command limit (timeout_s) can end it
+                    raw = wire.pack("WRTE", st.remote, st.local, b"more output %d\n" % self.floods)
                 elif sim.connected:
                     raw = wire.pack("WRTE", 0x70000000 + self.floods, 0x60000000 + (self.floods % 3), b"flood")
                 else:
@@ -246,6 +249,8 @@ def run_case(case):
         sess.dispose()
     for j in range(npk):
         for kind in STALLS:
+            if kind == "data-flood" and not (op in ("shell", "exec_out", "root") and case["X"] is not None and j >= 1):
+                continue      # endless data is a stall only for operations with a whole-command limit, once the stream is open
             sess, do, _ = setup(impl, case)
             try:
                 e0 = 0 if op.startswith("connect") else sess.sim.emitted
